@@ -373,7 +373,12 @@ Definition server_select_suite (s : Server) (ch : CHello) (v : Z) (suites : list
   let prfs := map snd (filter (fun p => memZ (fst p) (ch_psk_ids ch)) (st_psks st)) in
   (* /repo 63e0638: the PRF of a matching PSK narrows the suites only when TLS 1.3 is negotiated *)
   let c2 := if fix_psk_prf_tls13_only && (v <? 4) then c1
-            else match prfs with [] => c1 | _ => filter_for_prfs c1 prfs end in
+            else match prfs with
+                 | [] => c1
+                 | _ => (* /repo ba94cd5: narrow only if one of the narrowed suites is on offer, else certificate handshake *)
+                        if fix_psk_prf_fallback && negb (existsb (fun x => memZ x (ch_suites ch)) (filter_for_prfs c1 prfs))
+                        then c1 else filter_for_prfs c1 prfs
+                 end in
   (* repaired server: EdDSA certificates are refused with an alert before TLS 1.2 *)
   if fix_eddsa_server && (v <? 3) && (match sv_cert s with Some c => (ct_alg c =? 3) || (ct_alg c =? 4) | None => false end)
   then server_alert a_handshake_failure else
